@@ -52,3 +52,9 @@ func vfConfig(name string, def int) int
 func vfUF64(name string, x uint64) uint64
 func vfFail(label string)
 func vfPrint(label string, v any)
+
+// vfStub replaces every later call of the function whose full name ends in suffix by "count the call,
+// return zero values" (a recorded cut); vfStubCalls reads the counter.
+func vfStub(suffix string)
+func vfUnstub(suffix string)
+func vfStubCalls(suffix string) int
